@@ -9,6 +9,24 @@ from symx.load import repo, REPO
 EXTRA_ARGS = ["f'{x},{y}', c", 'a, f"{x},", b', "f'({x})', k", "f'{x:,}', f'{a,b}'", "x", "x, y", " a , b ", "[1, 2], {3: 4}", "'a,b', c", "f(x, y), z", "a b c", "if x: pass", "$HOME, $(ls)", "(1,\n 2), 3", "lambda x, y: 0", "x=1", "*a, **b",
               "'''t,\nu''', v", "a[1:2, 3]", "{1, 2}", "x,", "a,, b", "f!(n, m)", "p'/x', `y`", "@(z)", "1 +", "def", "x y z, w v", "\"q,r\"", "for in", "a ; b", "é, ü",
               "x  ,  y", "\tx\t", "a.b.c(d)[e], f", "not, and", "1e5x, 0x, 08", ":=, ->", "{'k': (1, [2, 3])}, (4,)"]
+FSTRING_BODIES = ["{{a}}", "{{ {k}: {v!r} }}", "a{{", "}}b{x}", "{x:{w}}", "{x=}", "{x!r:>5}", "{y[0]}, {z}", "{{", "}}", "{{}}{x}{{}}", "({x}), [{y}]", "{x:,}", "{'q'}", "a,b"]
+Q3S, Q3D = "'" * 3, '"' * 3
+
+
+def fstring_args():
+    """macro arguments that are / contain f-strings: doubled braces, nested fields, specs with commas, brackets in literal parts"""
+    out = []
+    for p, q in (("f", '"'), ("F", "'"), ("rf", Q3D), ("f", Q3S)):
+        for b in FSTRING_BODIES:
+            if q[0] in b:
+                continue
+            lit = p + q + b + q
+            out += [lit, lit + ", b", "x, " + lit, " " + lit + " "]
+    return out
+
+
+# the macro call in positions where its callee is itself complex: attribute chains, subscripts, calls, OTHER MACRO CALLS before and after it
+CHAIN_CONTEXTS = [("g!(q r).", ""), ("", "!(u v)"), ("", ".h!(w, z)"), ("t!(k: v)[0].", ""), ("a[1](2).", "(3)[4]"), ("g!(x)!(y).", "")]
 CONTEXTS = [("", ""), ("y = ", " + 1"), ("print(", ", 2)"), ("if x: ", "; z = 3"), ("[", ", f!(k)]"), ("", "\nq = 1"), ("r = ", "\n$(ls)"), ("a.b.", ".c"), ("-", " if t else u")]
 BLOCKS = ["    s = \'\'\'a\n    b\n    c\'\'\'\n    y = s\n", '    s = """\nfirst\nsecond\n"""\n', "    t = f\'\'\'a\n    b\n    {c}\'\'\' + 1\n", "    a b\n", "    a\n    b c\n", "    if x:\n        y\n    z\n", "    a\n\n    b\n", "    a\n    # c\n    b\n", "  x\n", "\tx\n", "    a\n\n", "    '''s\nt'''\n",
           "    (1,\n2)\n", "    a; b\n", "        deep\n", "    for i in j:\n        k\n\n        l\n    m\n", "    ls -l | grep x\n    echo $HOME\n", "    x = f!(a, b)\n",
@@ -74,7 +92,7 @@ def main():
                         "trailing blank lines of a with-macro block are part of the body (pinned by the repo's tests); trailing comment lines are KF-C07-1"]
     collect_functions(chk, lambda: oracles.run_parse(repo().real, "y = f!(a b, [1, 2])\nwith! c:\n    d e\n$(echo! x  y)\n", "exec"))
     harness.oracles.ORACLES.update(oracles2.ORACLES)
-    margs = list(dict.fromkeys(test_macro_args() + EXTRA_ARGS))
+    margs = list(dict.fromkeys(test_macro_args() + EXTRA_ARGS + (chk.rng.sample(fstring_args(), 60) if chk.quick else fstring_args())))
     chk.extra["macro_argument_texts"] = len(margs)
 
     # ---- call macros
@@ -83,8 +101,8 @@ def main():
         sa = sym_at(ex, a, pos, k)
         src = SymStr.mk(pre + "f!(") + sa + (")" + post + "\n") if isinstance(sa, SymStr) else pre + "f!(" + sa + ")" + post + "\n"
         return src, lambda m: (pre, ev(sa, m), post)
-    cases0 = [(c, a, None, 0) for c in CONTEXTS for a in margs]
-    chk.run("call-macro k=0", generic(cases0, build_call, "c07_call"), f"{len(margs)} argument texts x {len(CONTEXTS)} surrounding contexts", vacuity=("ok",))
+    cases0 = [(c, a, None, 0) for c in CONTEXTS + CHAIN_CONTEXTS for a in margs]
+    chk.run("call-macro k=0", generic(cases0, build_call, "c07_call"), f"{len(margs)} argument texts x {len(CONTEXTS + CHAIN_CONTEXTS)} surrounding contexts", vacuity=("ok",))
     cases1 = [(c, a, p, 1) for a in margs for p in range(len(a)) for c in CONTEXTS[:3]]
     if chk.quick:
         cases1 = chk.rng.sample(cases1, min(len(cases1), 150))
